@@ -56,7 +56,9 @@ def metadata(backend: str) -> List[Dict[str, Any]]:
     return mds
 
 
-USERFN = {"metadata_type": "add_cpp_function", "name": "vpf", "include_files": [], "arguments": ["x", "y"], "code": ["auto result = x + y;"], "return_type": "double"}
+# (its parameters are called like accessors of the data model, so that the text of one argument can contain the name of
+# the other parameter: substitution must be simultaneous)
+USERFN = {"metadata_type": "add_cpp_function", "name": "vpf", "include_files": [], "arguments": ["d", "i"], "code": ["auto result = d + i;"], "return_type": "double"}
 
 
 def coll_types(backend: str) -> List[Dict[str, str]]:
@@ -619,7 +621,12 @@ class Gen:
         inner = {"k": "meth", "o": {"k": "var", "n": x}, "n": "vs"}
         if r.random() < 0.5:
             y = self.fresh()
-            inner = {"k": "Select", "s": inner, "x": y, "f": self.dep(self.scalar(env + [(x, et), (y, "double")], 1, "double"), y, "double", "double")}
+            if r.random() < 0.3:
+                # the inner projection uses the ENCLOSING element only (one entry per inner element all the same): as a
+                # column this is fine (the listed defect is an aggregate / First over such a projection)
+                inner = {"k": "Select", "s": inner, "x": y, "f": self.dep(self.scalar([(x, et)], 1, "double"), x, et, "double")}
+            else:
+                inner = {"k": "Select", "s": inner, "x": y, "f": self.dep(self.scalar(env + [(x, et), (y, "double")], 1, "double"), y, "double", "double")}
             self.op("Select")
         self.op("Select")
         self.op("vs")
